@@ -10,6 +10,7 @@ Campaigns (all specs are JSON-able):
 import re
 
 import numpy
+import pandas
 from hypothesis import strategies as st
 
 from forml.io import dsl, layout
@@ -29,7 +30,7 @@ RULE = (
 ASSUMPTIONS = [
     'header grammar restricted to RFC 7230 tokens (no quoted strings, no duplicate parameter names in one range, valid q-values)',
     'pandas.read_json in this environment (pandas 3) rejects literal JSON: codec pairs failing a trivial probe table are '
-    'counted as unusable, not as violations',
+    'counted as unusable, not as violations - except the three pairs usable on the unchanged tree under pandas 3, which are pinned',
     'CSV round trip compared with float tolerance 1e-9 relative (pandas fast float parser); strings restricted to values '
     'that CSV type inference keeps as strings',
 ]
@@ -229,6 +230,9 @@ def check_nego(ctx, spec):
         fn = getattr(layout.get_encoder, '__wrapped__', layout.get_encoder) if mode == 'cold' else layout.get_encoder
         try:
             got = fn(*accept)
+            if got is None:  # "otherwise the unsupported-encoding error is raised": returning nothing is not raising
+                ctx.fail(spec, 'get_encoder', 'returned-none', f'accept={header!r}: no encoder and no Unsupported error', [mode])
+                return
         except layout.Encoding.Unsupported:
             got = None
         except Exception as exc:
@@ -253,6 +257,9 @@ def check_nego(ctx, spec):
         fn = getattr(layout.get_decoder, '__wrapped__', layout.get_decoder) if mode == 'cold' else layout.get_decoder
         try:
             got = fn(accept[0])
+            if got is None:
+                ctx.fail(spec, 'get_decoder', 'returned-none', f'content-type={top}: no decoder and no Unsupported error', [mode])
+                return
         except layout.Encoding.Unsupported:
             got = None
         except Exception as exc:
@@ -411,8 +418,18 @@ def _roundtrip(spec, enc, dec):
     return None
 
 
+# what the probe finds usable on the unchanged tree in this environment (pandas 3: the pandas-format JSON *decoders* are
+# out). Pinned, because "usable" is decided by running the code under test: a change that breaks a codec altogether would
+# otherwise just shrink the list (found by tools/mutsweep.py: dropped returns in Encoder.dumps / Json.to_pandas survived)
+_PINNED = ['text/csv', 'application/json; format=pandas-records -> application/json', 'application/json; format=pandas-columns -> application/json']
+
+
 def check_codec(ctx, spec):
     pairs = usable_pairs()
+    if pandas.__version__.split('.')[0] == '3':
+        for label in _PINNED:
+            if label not in [lbl for lbl, _, _ in pairs]:
+                ctx.fail(spec, 'roundtrip', 'codec-pair-unusable', f'{label}: fails the two-row probe table', [label])
     ctx.case(spec, nontrivial=len(spec['names']) >= 2, classes=['codec'] + [f'codec:{lbl}' for lbl, _, _ in pairs])
     for label, enc, dec in pairs:
         try:
